@@ -6,8 +6,11 @@ property statement; the Dyna-Q model is compared with the empirical successor
 frequencies / mean rewards of generated histories with stochastic successors;
 ``planning`` is judged by an existential oracle (no RNG replication); short
 recorded runs of the five ``train_*`` routines on a ScriptedTabularEnv are
-replayed step by step by the reference from the environment log.  See
-DESIGN.md §5 C14.
+replayed step by step by the reference from the environment log.  Q-learning,
+SARSA and double Q-learning (single updates and runs) are also driven with the
+tables ``make_q_table`` builds for Tuple(Discrete, ...) observation spaces (2 or
+3 observation axes) and tuple observations, as in examples/toy_text/
+blackjack_example.py.  See DESIGN.md §5 C14.
 """
 from __future__ import annotations
 
@@ -21,7 +24,11 @@ PROPERTY = "C14"
 RULE = (
     "Single updates: tables of 2-6 states x 2-4 actions (values within +-130, integer-valued tables "
     "with ties, zero tables), transition (s, a, r, s', a', terminated), gamma, learning rate drawn by "
-    "Hypothesis; non-trivial = learning rate and gamma large enough and the table non-zero at the "
+    "Hypothesis; about 40% of the q_learning / sarsa / double_q cases (and of their recorded runs) use a table "
+    "with 2 or 3 observation axes (shape obs axes + (n_actions,), as make_q_table builds it for "
+    "Tuple(Discrete, ...) observation spaces) and hand the observation over as a tuple of python ints or of "
+    "numpy integers (runs: a scripted environment with such an observation space); "
+    "non-trivial = learning rate and gamma large enough and the table non-zero at the "
     "successor such that the bootstrap term lr*gamma*V_next exceeds 20x the comparison tolerance (so a "
     "wrong V_next or a dropped (1-terminated) is visible); double Q-learning additionally needs the "
     "value selected by the updated table's greedy action at s' to differ (by > 20x tolerance) from the "
@@ -43,10 +50,24 @@ ASSUMPTIONS = [
     "not constrained",
     "recorded runs observe the tables by wrapping the module-level callables epsilon_greedy_policy / "
     "_dql_update / planning of the algorithm module from the test side (restored after each case)",
+    "Q-tables with several observation axes are in the domain of Q-learning, SARSA and double Q-learning: "
+    "make_q_table builds them for Tuple(Discrete, ...) observation spaces, greedy_policy / epsilon_greedy_policy "
+    "index q_table[observation] with the tuple, and examples/toy_text/blackjack_example.py trains Q-learning and "
+    "SARSA on Blackjack-v1; the visited entry is q_table[o_1, ..., o_k, action]. Dyna-Q and Monte-Carlo call "
+    "int(observation) and so reject tuple observations loudly (not generated)",
+    "a failure of a tuple-observation case gets the suffix `.tuple_observation` only when the whole returned "
+    "table equals (within tolerance) the update with the observation tuple read as an advanced index on axis 0 "
+    "(numpy model with XLA's out-of-bounds rules: reads clamped, writes dropped, repeated rows accumulate); "
+    "anything else is reported under the same keys as for tables with one observation axis",
 ]
 
 QUICK = gen.tier() == "quick"
 SHAPES_QUICK = [[2, 2], [3, 2], [4, 3], [5, 4], [6, 3]]
+# Tables with several observation axes: observation axes + [n_actions], the shape make_q_table builds for
+# Tuple(Discrete, ...) observation spaces (Blackjack-v1: (32, 11, 2, 2)).  Axis sizes mostly differ from each
+# other and from n_actions so that an index applied to the wrong axis shows.
+SHAPES_ND_QUICK = [[3, 2, 4], [2, 5, 3], [4, 3, 2], [2, 2, 3], [3, 3, 2], [3, 4, 2, 2], [2, 3, 2, 4], [2, 2, 2, 3]]
+ND_SHARE = [False, True, False, True, False]  # 40% of the cases
 
 
 def _jnp():
@@ -64,6 +85,14 @@ def shapes():
     return st.one_of(pool, st.tuples(st.integers(2, 6), st.integers(2, 4)).map(list))
 
 
+def nd_shapes():
+    pool = st.sampled_from(SHAPES_ND_QUICK)
+    if QUICK:
+        return pool
+    free = st.tuples(st.lists(st.integers(1, 5), min_size=2, max_size=3), st.integers(2, 4)).map(lambda t: t[0] + [t[1]])
+    return st.one_of(pool, free)
+
+
 def table_modes():
     return st.sampled_from(["normal", "int", "normal", "normal", "small", "normal", "int", "normal", "zero"])
 
@@ -75,7 +104,19 @@ def gammas():
 
 def make_table(ns, na, seed, mode):
     """float32 table, pure function of the case."""
-    x = gen.rng_array(seed, (ns, na), 1.0).astype(np.float64)
+    return make_table_nd((ns, na), seed, mode)
+
+
+def table_shape(case):
+    """(ns, na), or observation axes + (na,) for the cases with several observation axes."""
+    if case.get("obs_shape"):
+        return tuple(case["obs_shape"]) + (case["na"],)
+    return (case["ns"], case["na"])
+
+
+def make_table_nd(shape, seed, mode):
+    """float32 table of any rank, pure function of the case."""
+    x = gen.rng_array(seed, tuple(shape), 1.0).astype(np.float64)
     if mode == "normal":
         t = np.clip(x * 40.0, -100.0, 100.0)
     elif mode == "int":  # many exact ties
@@ -83,7 +124,7 @@ def make_table(ns, na, seed, mode):
     elif mode == "small":
         t = x
     else:
-        t = np.zeros((ns, na))
+        t = np.zeros(tuple(shape))
     return t.astype(np.float32)
 
 
@@ -104,23 +145,60 @@ def _idx(v, kind):
     return _jnp().asarray(int(v), dtype=_jnp().int32)
 
 
+def _sidx(s):
+    """State as an index tuple over the observation axes (cases store ints or lists)."""
+    if isinstance(s, (tuple, list)):
+        return tuple(int(i) for i in s)
+    return (int(s),)
+
+
+def _show(si):
+    return si[0] if len(si) == 1 else si
+
+
+def _obs(s, kind):
+    """The observation as the tabular training loops receive it from env.reset / env.step."""
+    if kind == "tuple":  # Blackjack-v1
+        return tuple(int(i) for i in s)
+    if kind == "np_tuple":  # Tuple.sample()
+        return tuple(np.int64(i) for i in s)
+    return _idx(s, kind)
+
+
 def _flag(v, kind):
     return bool(v) if kind == "bool" else np.bool_(bool(v))
 
 
 @st.composite
-def transition_cases(draw, two_tables=False, with_next_action=False, with_term=True):
-    ns, na = draw(shapes())
-    s = draw(st.integers(0, ns - 1))
-    # mostly s' != s (constructed), sometimes a self-loop
-    s2 = (s + draw(st.sampled_from([0] + 3 * list(range(1, ns))))) % ns
+def transition_cases(draw, two_tables=False, with_next_action=False, with_term=True, nd=False):
+    if nd and draw(st.sampled_from(ND_SHARE)):
+        # several observation axes, tuple observations; the action comes from the policy (0-d jax array) in the
+        # training loops, python / numpy ints are drawn as well
+        shape = draw(nd_shapes())
+        dims, na = shape[:-1], shape[-1]
+        ns = int(np.prod(dims))
+        f = draw(st.integers(0, ns - 1))
+        f2 = (f + draw(st.sampled_from([0] + 3 * list(range(1, ns))))) % ns
+        head = {"obs_shape": dims, "na": na}
+        s, s2 = [int(i) for i in np.unravel_index(f, dims)], [int(i) for i in np.unravel_index(f2, dims)]
+        idx = draw(st.sampled_from(["tuple", "np_tuple"]))
+        aidx = draw(st.sampled_from(["jnp", "int", "jnp", "np"]))
+    else:
+        ns, na = draw(shapes())
+        head = {"ns": ns, "na": na}
+        s = draw(st.integers(0, ns - 1))
+        # mostly s' != s (constructed), sometimes a self-loop
+        s2 = (s + draw(st.sampled_from([0] + 3 * list(range(1, ns))))) % ns
+        idx = aidx = None
     mode = draw(table_modes())
-    case = {
-        "ns": ns, "na": na, "seed": draw(gen.seeds()), "mode": mode,
+    case = dict(head, **{
+        "seed": draw(gen.seeds()), "mode": mode,
         "s": s, "a": draw(st.integers(0, na - 1)), "r": draw(rewards(mode)), "s2": s2,
         "gamma": draw(gammas()), "lr": draw(lrs()),
-        "idx": draw(st.sampled_from(["int", "np", "jnp"])),
-    }
+        "idx": idx or draw(st.sampled_from(["int", "np", "jnp"])),
+    })
+    if aidx:
+        case["aidx"] = aidx
     if with_term:
         case["term"] = draw(st.sampled_from([0, 0, 1]))
         case["flag"] = draw(st.sampled_from(["bool", "np"]))
@@ -157,13 +235,14 @@ def near(a, ref, scale):
 
 
 def only_entry_changed(before, after, s, a):
-    """Every entry but (s, a) is byte-identical."""
+    """Every entry but (s, a) is byte-identical (s: int or index tuple over the observation axes)."""
     b = np.array(before, copy=True)
     c = np.array(after, copy=True)
     if b.shape != c.shape or b.dtype != c.dtype:
         return False
-    b[s, a] = 0
-    c[s, a] = 0
+    e = _sidx(s) + (int(a),)
+    b[e] = 0
+    c[e] = 0
     return b.tobytes() == c.tobytes()
 
 
@@ -177,14 +256,86 @@ def changed_entries(before, after):
     return [list(map(int, ix)) for ix in np.argwhere(bb != cc)]
 
 
-def check_single_update(sub, before, after, s, a, ref, scale, value_key=None, detail=""):
+def axis0_reading(q, s, a, r, s2, a2, gamma, term, lr, q_eval=None):
+    """Used only to *name* a failure of a tuple-observation case (never as the reference): the table one TD update
+    gives when the observation tuple (o_1, ..., o_k) is read as an advanced index on axis 0, i.e. with numpy's
+    meaning of ``q[(o_1, ..., o_k), a]``: rows o_1 ... o_k of axis 0 and ``a`` applied to axis 1 (the second
+    observation axis), instead of the single entry ``q[o_1, ..., o_k, a]``.  XLA's out-of-bounds rules: reads are
+    clamped, writes dropped, writes to a repeated row accumulate.  Returns (table, magnitude)."""
+    q64 = q.astype(np.float64)
+    qe = q64 if q_eval is None else q_eval.astype(np.float64)
+    n0, n1 = q.shape[0], q.shape[1]
+    rows, rows2 = np.clip(np.asarray(s), 0, n0 - 1), np.clip(np.asarray(s2), 0, n0 - 1)
+    val = q64[rows, min(int(a), n1 - 1)]
+    nxt = qe[rows2, min(int(a2), n1 - 1)]
+    err = r + gamma * (0.0 if term else 1.0) * nxt - val
+    out = q64.copy()
+    if int(a) < n1:
+        for i, o in enumerate(s):
+            if o < n0:
+                out[o, int(a)] += lr * err[i]
+    mag = max(float(np.abs(out).max()), float(np.abs(err).max()), float(np.abs(q64).max()), abs(r), 1e-3)
+    return out, mag
+
+
+def explained_by_axis0_reading(after, readings):
+    after = np.asarray(after, dtype=np.float64)
+    for out, mag in readings:
+        if after.shape == out.shape and bool(np.all(np.abs(after - out) <= 2e-5 * mag + 2e-4 * np.abs(out))):
+            return True
+    return False
+
+
+AXIS0_TEXT = ("the returned table equals the update with the observation tuple read as an advanced index on axis 0 "
+              "(q_table[observation, action] with a tuple observation selects the rows o_1..o_k of the first "
+              "observation axis and applies `action` to the second one) instead of the entry "
+              "q_table[o_1, ..., o_k, action]")
+
+
+def report_tuple_observation(sub, before, after, si, a, isolated, readings, detail):
+    """Failure of a case with several observation axes: reported (once) with the suffix .tuple_observation when the
+    axis-0 reading explains the whole returned table.  Returns True when it did."""
+    if len(si) < 2 or not explained_by_axis0_reading(after, readings()):
+        return False
+    e = si + (int(a),)
+    if not isolated:
+        report(f"{sub}.only_visited_entry_changes.tuple_observation",
+               f"table shape {tuple(before.shape)}, visited entry {e}; changed entries "
+               f"{changed_entries(before, after)}; {AXIS0_TEXT} {detail}")
+    else:
+        report(f"{sub}.value.tuple_observation",
+               f"table shape {tuple(before.shape)}, visited entry {e}: got {float(np.asarray(after)[e])!r} (before "
+               f"{float(before[e])!r}), no other entry changed; {AXIS0_TEXT} (reads clamped, out-of-range writes "
+               f"dropped) {detail}")
+    return True
+
+
+def check_single_update(sub, before, after, s, a, ref, scale, value_key=None, detail="", readings=None):
+    """``readings``: zero-argument callable giving the axis0_reading tables of the case (several observation axes
+    only)."""
     after = np.asarray(after)
     check(after.shape == before.shape and after.dtype == before.dtype, f"{sub}.shape_dtype",
           lambda: f"{before.shape}/{before.dtype} -> {after.shape}/{after.dtype}")
-    check(only_entry_changed(before, after, s, a), f"{sub}.other_entries_changed",
+    si = _sidx(s)
+    e = si + (int(a),)
+    isolated = only_entry_changed(before, after, si, a)
+    value_ok = near(after[e], ref, scale)
+    if not (isolated and value_ok) and readings is not None:
+        if report_tuple_observation(sub, before, after, si, a, isolated, readings, detail):
+            return
+    s = _show(si)
+    check(isolated, f"{sub}.other_entries_changed",
           lambda: f"visited ({s},{a}); changed entries {changed_entries(before, after)} {detail}")
-    check(near(after[s, a], ref, scale), value_key or f"{sub}.value",
-          lambda: f"entry ({s},{a}): got {float(after[s, a])!r}, reference {ref!r} (tol {tol_of(ref, scale):.3g}) {detail}")
+    check(value_ok, value_key or f"{sub}.value",
+          lambda: f"entry ({s},{a}): got {float(after[e])!r}, reference {ref!r} (tol {tol_of(ref, scale):.3g}) {detail}")
+
+
+def obs_labels(case):
+    n = len(_sidx(case["s"]))
+    labels = [f"obs-axes={n}", "obs=" + case["idx"]]
+    if n > 1:
+        labels.append("action=" + case.get("aidx", case["idx"]))
+    return labels
 
 
 # --------------------------------------------------------- Q-learning (single)
@@ -194,22 +345,26 @@ def run_q_learning(case):
     from rl_blox.algorithm.q_learning import _update_policy
     from rl_blox.blox.value_policy import greedy_policy
 
-    q = make_table(case["ns"], case["na"], case["seed"], case["mode"])
-    s, a, s2, term = case["s"], case["a"], case["s2"], bool(case["term"])
+    q = make_table_nd(table_shape(case), case["seed"], case["mode"])
+    s, a, s2, term = _sidx(case["s"]), case["a"], _sidx(case["s2"]), bool(case["term"])
     qj = jnp.asarray(q)
     # Q-learning step as documented: the next action is the greedy one at the successor
-    a2 = greedy_policy(qj, _idx(s2, case["idx"]))
-    out = _update_policy(qj, _idx(s, case["idx"]), _idx(a, case["idx"]), case["r"], _idx(s2, case["idx"]),
-                         a2, case["gamma"], _flag(term, case["flag"]), case["lr"])
+    a2 = greedy_policy(qj, _obs(case["s2"], case["idx"]))
+    out = _update_policy(qj, _obs(case["s"], case["idx"]), _idx(a, case.get("aidx", case["idx"])), case["r"],
+                         _obs(case["s2"], case["idx"]), a2, case["gamma"], _flag(term, case["flag"]), case["lr"])
     q64 = q.astype(np.float64)
     v_next = float(q64[s2].max())
-    ref, scale = td_ref(q64[s, a], case["r"], case["gamma"], term, v_next, case["lr"])
+    ref, scale = td_ref(q64[s + (a,)], case["r"], case["gamma"], term, v_next, case["lr"])
+    greedy = np.flatnonzero(q64[s2] == q64[s2].max())
     check_single_update("q_learning", q, out, s, a, ref, scale,
-                        detail=f"r={case['r']} gamma={case['gamma']} lr={case['lr']} term={term} V_next={v_next}")
+                        detail=f"r={case['r']} gamma={case['gamma']} lr={case['lr']} term={term} V_next={v_next} "
+                               f"s'={_show(s2)}",
+                        readings=lambda: [axis0_reading(q, s, a, case["r"], s2, g, case["gamma"], term, case["lr"])
+                                          for g in greedy])
     check(bytes_equal(np.asarray(qj), q), "q_learning.input_mutated", "")
     vis = case["lr"] * case["gamma"] * abs(v_next) > 20 * tol_of(ref, scale)
     labels = ["terminated" if term else "non-terminated", "self-loop" if s2 == s else "s'!=s",
-              "table:" + case["mode"], "bootstrap-visible" if vis else "bootstrap-invisible"]
+              "table:" + case["mode"], "bootstrap-visible" if vis else "bootstrap-invisible"] + obs_labels(case)
     if int(np.argmax(q64[s2])) != a:
         labels.append("greedy(s')!=a")
     return Outcome(labels=labels, nontrivial=bool(vis))
@@ -221,35 +376,39 @@ def run_sarsa(case):
     jnp = _jnp()
     from rl_blox.algorithm.sarsa import _update_policy
 
-    q = make_table(case["ns"], case["na"], case["seed"], case["mode"])
-    s, a, s2, a2, term = case["s"], case["a"], case["s2"], case["a2"], bool(case["term"])
+    q = make_table_nd(table_shape(case), case["seed"], case["mode"])
+    s, a, s2, a2, term = _sidx(case["s"]), case["a"], _sidx(case["s2"]), case["a2"], bool(case["term"])
     qj = jnp.asarray(q)
-    out = _update_policy(qj, _idx(s, case["idx"]), _idx(a, case["idx"]), case["r"], _idx(s2, case["idx"]),
-                         _idx(a2, case["idx"]), case["gamma"], case["lr"], _flag(term, case["flag"]))
+    aidx = case.get("aidx", case["idx"])
+    out = _update_policy(qj, _obs(case["s"], case["idx"]), _idx(a, aidx), case["r"], _obs(case["s2"], case["idx"]),
+                         _idx(a2, aidx), case["gamma"], case["lr"], _flag(term, case["flag"]))
     q64 = q.astype(np.float64)
-    v_next = float(q64[s2, a2])
-    ref, scale = td_ref(q64[s, a], case["r"], case["gamma"], term, v_next, case["lr"])
+    v_next = float(q64[s2 + (a2,)])
+    ref, scale = td_ref(q64[s + (a,)], case["r"], case["gamma"], term, v_next, case["lr"])
     check_single_update("sarsa", q, out, s, a, ref, scale,
-                        detail=f"r={case['r']} gamma={case['gamma']} lr={case['lr']} term={term} a'={a2} V_next={v_next}")
+                        detail=f"r={case['r']} gamma={case['gamma']} lr={case['lr']} term={term} a'={a2} "
+                               f"V_next={v_next} s'={_show(s2)}",
+                        readings=lambda: [axis0_reading(q, s, a, case["r"], s2, a2, case["gamma"], term, case["lr"])])
     vis = case["lr"] * case["gamma"] * abs(v_next) > 20 * tol_of(ref, scale)
     greedy_val = float(q64[s2].max())
     off = abs(greedy_val - v_next) * case["lr"] * case["gamma"] > 20 * tol_of(ref, scale)
     labels = ["terminated" if term else "non-terminated", "table:" + case["mode"],
               "a'-not-greedy-visible" if off else "a'-greedy-or-equal",
-              "bootstrap-visible" if vis else "bootstrap-invisible"]
+              "bootstrap-visible" if vis else "bootstrap-invisible"] + obs_labels(case)
     return Outcome(labels=labels, nontrivial=bool(vis))
 
 
 # ---------------------------------------------------- double Q-learning (single)
 
 def double_q_tables(case):
-    q1 = make_table(case["ns"], case["na"], case["seed"], case["mode"])
-    q2 = make_table(case["ns"], case["na"], case["seed2"] + (1 if case["seed2"] == case["seed"] else 0), case["mode2"])
+    q1 = make_table_nd(table_shape(case), case["seed"], case["mode"])
+    q2 = make_table_nd(table_shape(case), case["seed2"] + (1 if case["seed2"] == case["seed"] else 0), case["mode2"])
     f = case.get("force")
     if f:
-        q1[case["s"], f[0]] = 120.0
-        q1[case["s2"], f[1]] = 125.0
-        q2[case["s2"], f[2]] = 130.0
+        s, s2 = _sidx(case["s"]), _sidx(case["s2"])
+        q1[s + (f[0],)] = 120.0
+        q1[s2 + (f[1],)] = 125.0
+        q2[s2 + (f[2],)] = 130.0
     return q1, q2
 
 
@@ -258,28 +417,35 @@ def double_q_oracle(sub, q1, q2, out, s, a, r, s2, gamma, lr, term, detail=""):
     (visible, d6_distinguishable)."""
     out = np.asarray(out)
     check(out.shape == q1.shape and out.dtype == q1.dtype, f"{sub}.shape_dtype", f"{out.shape} {out.dtype}")
-    check(only_entry_changed(q1, out, s, a), f"{sub}.other_entries_changed",
-          lambda: f"visited ({s},{a}); changed entries {changed_entries(q1, out)} {detail}")
+    s, s2 = _sidx(s), _sidx(s2)  # index tuples over the observation axes
+    e = s + (int(a),)
     a64, b64 = q1.astype(np.float64), q2.astype(np.float64)
     greedy = np.flatnonzero(a64[s2] == a64[s2].max())  # any maximal action is accepted
-    refs = [td_ref(a64[s, a], r, gamma, term, float(b64[s2, g]), lr) for g in greedy]
-    ok = any(near(out[s, a], ref, sc) for ref, sc in refs)
+    refs = [td_ref(a64[e], r, gamma, term, float(b64[s2 + (g,)]), lr) for g in greedy]
+    isolated = only_entry_changed(q1, out, s, a)
+    ok = any(near(out[e], ref, sc) for ref, sc in refs)
+    if not (isolated and ok) and report_tuple_observation(
+            sub, q1, out, s, a, isolated,
+            lambda: [axis0_reading(q1, s, a, r, s2, g, gamma, term, lr, q_eval=q2) for g in greedy], detail):
+        isolated = ok = True  # named and reported; the remaining clauses of the case go on
+    check(isolated, f"{sub}.other_entries_changed",
+          lambda: f"visited ({_show(s)},{a}); changed entries {changed_entries(q1, out)} {detail}")
     ref0, sc0 = refs[0]
     # alternative reading used only to classify the failure: action selected at `observation`
     g_obs = np.flatnonzero(a64[s] == a64[s].max())
-    alts = [td_ref(a64[s, a], r, gamma, term, float(b64[s2, g]), lr) for g in g_obs]
+    alts = [td_ref(a64[e], r, gamma, term, float(b64[s2 + (g,)]), lr) for g in g_obs]
     if not ok:
-        d = (f"entry ({s},{a}): got {float(out[s, a])!r}, reference {ref0!r} = q1[s,a] + lr*(r + gamma*(1-term)*"
+        d = (f"entry ({_show(s)},{a}): got {float(out[e])!r}, reference {ref0!r} = q1[s,a] + lr*(r + gamma*(1-term)*"
              f"q2[s', argmax q1[s']]) with argmax q1[s']={greedy.tolist()}, q2[s']={b64[s2].tolist()}, "
              f"q1[s]={a64[s].tolist()}, q1[s']={a64[s2].tolist()}, r={r}, gamma={gamma}, lr={lr}, term={term} {detail}")
-        if any(near(out[s, a], ref, sc) for ref, sc in alts):
+        if any(near(out[e], ref, sc) for ref, sc in alts):
             report(f"{sub}.value.next_action_selected_at_observation",
                    d + f"; result equals the update with the action argmax q1[s]={g_obs.tolist()} selected at the "
                        "current observation instead of the successor")
         else:
             report(f"{sub}.value", d)
     t0 = tol_of(ref0, sc0)
-    vis = lr * gamma * max(abs(float(b64[s2, g])) for g in greedy) > 20 * t0
+    vis = lr * gamma * max(abs(float(b64[s2 + (g,)])) for g in greedy) > 20 * t0
     dist = (not term) and all(abs(r1 - r2) > 20 * t0 for r1, _ in refs for r2, _ in alts)
     return bool(vis), bool(dist)
 
@@ -291,17 +457,18 @@ def run_double_q(case):
     from rl_blox.algorithm.double_q_learning import _dql_update
 
     q1, q2 = double_q_tables(case)
-    s, a, s2, term = case["s"], case["a"], case["s2"], bool(case["term"])
+    s, a, s2, term = _sidx(case["s"]), case["a"], _sidx(case["s2"]), bool(case["term"])
     out = _dql_update(jax.random.key(case["seed"] % 1000), jnp.asarray(q1), jnp.asarray(q2),
-                      _idx(s, case["idx"]), _idx(a, case["idx"]), case["r"], _idx(s2, case["idx"]),
-                      case["gamma"], case["lr"], _flag(term, case["flag"]))
-    vis, dist = double_q_oracle("double_q", q1, q2, out, s, a, case["r"], s2, case["gamma"], case["lr"], term)
+                      _obs(case["s"], case["idx"]), _idx(a, case.get("aidx", case["idx"])), case["r"],
+                      _obs(case["s2"], case["idx"]), case["gamma"], case["lr"], _flag(term, case["flag"]))
+    vis, dist = double_q_oracle("double_q", q1, q2, out, s, a, case["r"], s2, case["gamma"], case["lr"], term,
+                                detail=f"[s'={_show(s2)} r={case['r']} gamma={case['gamma']} lr={case['lr']} term={term}]")
     g1 = int(np.argmax(q1[s2]))
     labels = ["terminated" if term else "non-terminated",
               "greedy(s')-differs-between-tables" if g1 != int(np.argmax(q2[s2])) else "greedy(s')-same-in-both",
               "greedy-differs-s-vs-s'" if g1 != int(np.argmax(q1[s])) else "greedy-same-s-vs-s'",
               "selection-site-visible" if dist else "selection-site-invisible",
-              "self-loop" if s2 == s else "s'!=s"]
+              "self-loop" if s2 == s else "s'!=s"] + obs_labels(case)
     return Outcome(labels=labels, nontrivial=bool(vis and (dist or term)))
 
 
@@ -635,8 +802,11 @@ class Tap:
 
 def _snap_policy(args, kwargs, res):
     q_table, observation = args[0], args[1]
-    return {"table": np.array(q_table), "obs": int(observation), "action": int(res),
+    return {"table": np.array(q_table), "obs": _sidx(observation), "action": int(res),
             "epsilon": float(args[2]) if len(args) > 2 else None}
+
+
+RUN_OBS_SHAPES = [[2, 2], [3, 2], [2, 3], [2, 2, 2]] if QUICK else [[2, 2], [3, 2], [2, 3], [2, 2, 2], [1, 4], [3, 1, 2]]
 
 
 @st.composite
@@ -661,6 +831,10 @@ def run_cases(draw, algo):
             "lr": draw(st.sampled_from([0.1, 0.5, 1.0, 0.3])),
             "seed": draw(st.integers(0, 1000)), "tseed": draw(gen.seeds()),
             "mode": draw(st.sampled_from(["normal", "int", "normal", "small", "normal", "int", "zero"]))}
+    if algo in ("q_learning", "sarsa", "double_q") and draw(st.sampled_from(ND_SHARE)):
+        # Tuple(Discrete, ...) observation space: table with 2 or 3 observation axes, tuple observations
+        case["obs_shape"] = draw(st.sampled_from(RUN_OBS_SHAPES))
+        case["obs_form"] = draw(st.sampled_from(["tuple", "np_tuple"]))
     if algo == "double_q":
         case["tseed2"] = draw(gen.seeds())
     if algo == "monte_carlo":
@@ -694,7 +868,30 @@ def simplify_run(case):
 def _make_env(case):
     from vlib.envs import ScriptedTabularEnv
 
+    if case.get("obs_shape"):
+        from vlib.tabular_tuple_env import ScriptedTupleTabularEnv
+
+        return ScriptedTupleTabularEnv(case["script"], dims=case["obs_shape"], n_actions=case["na"],
+                                       seed=case["env_seed"], form=case["obs_form"])
     return ScriptedTabularEnv(case["script"], n_states=case["ns"], n_actions=case["na"], seed=case["env_seed"])
+
+
+def _run_table(sub, env, case, seed, mode):
+    """Initial table of a recorded run; for Tuple observation spaces of the shape make_q_table builds."""
+    shape = table_shape(case)
+    if case.get("obs_shape"):
+        from rl_blox.blox.value_policy import make_q_table
+
+        built = tuple(make_q_table(env).shape)
+        if built != shape:
+            raise HarnessError(f"{sub}: make_q_table builds {built} for {env.observation_space}, case uses {shape}")
+    return make_table_nd(shape, seed, mode)
+
+
+def _run_labels(case):
+    if case.get("obs_shape"):
+        return [f"obs-axes={len(case['obs_shape'])}", "obs=" + case["obs_form"]]
+    return ["obs-axes=1", "obs=int"]
 
 
 def _transitions(env):
@@ -729,8 +926,8 @@ def run_run_q_learning(case):
     import rl_blox.algorithm.q_learning as mod
 
     sub = "run_q_learning"
-    q0 = make_table(case["ns"], case["na"], case["tseed"], case["mode"])
     env = _make_env(case)
+    q0 = _run_table(sub, env, case, case["tseed"], case["mode"])
     with Tap(mod, "epsilon_greedy_policy", _snap_policy) as tap:
         final = mod.train_q_learning(env, jnp.asarray(q0), learning_rate=case["lr"], epsilon=case["epsilon"],
                                      gamma=case["gamma"], total_timesteps=case["total"], seed=case["seed"],
@@ -743,20 +940,23 @@ def run_run_q_learning(case):
     check(bytes_equal(tables[0], q0), f"{sub}.initial_table_changed_before_first_step", "")
     flags = []
     for i, t in enumerate(tr):
-        s, a, s2, term = int(t["observation"]), int(t["action"]), int(t["next_observation"]), bool(t["terminated"])
+        s, a, s2, term = _sidx(t["observation"]), int(t["action"]), _sidx(t["next_observation"]), bool(t["terminated"])
         check(tap.calls[i]["obs"] == s and tap.calls[i]["action"] == a, f"{sub}.acts_on_current_observation",
               f"step {i}: policy asked at {tap.calls[i]['obs']} -> {tap.calls[i]['action']}, env at {s} got {a}")
         q64 = tables[i].astype(np.float64)
         v = float(q64[s2].max())
-        ref, scale = td_ref(q64[s, a], t["reward"], case["gamma"], term, v, case["lr"])
+        ref, scale = td_ref(q64[s + (a,)], t["reward"], case["gamma"], term, v, case["lr"])
+        greedy = np.flatnonzero(q64[s2] == q64[s2].max())
         check_single_update(sub, tables[i], tables[i + 1], s, a, ref, scale,
-                            detail=f"[step {i}: s={s} a={a} r={t['reward']} s'={s2} terminated={term} "
-                                   f"truncated={t['truncated']} table={tables[i].tolist()}]")
+                            detail=f"[step {i}: s={_show(s)} a={a} r={t['reward']} s'={_show(s2)} terminated={term} "
+                                   f"truncated={t['truncated']} table={tables[i].tolist()}]",
+                            readings=lambda: [axis0_reading(tables[i], s, a, t["reward"], s2, g, case["gamma"], term,
+                                                            case["lr"]) for g in greedy])
         flags.append((term, case["lr"] * case["gamma"] * abs(v) > 20 * tol_of(ref, scale)))
     labels, nt = _vis_labels(flags)
     if any(t["truncated"] for t in tr):
         labels.append("has-truncation")
-    return Outcome(labels=labels, nontrivial=nt)
+    return Outcome(labels=labels + _run_labels(case), nontrivial=nt)
 
 
 def run_run_sarsa(case):
@@ -764,8 +964,8 @@ def run_run_sarsa(case):
     import rl_blox.algorithm.sarsa as mod
 
     sub = "run_sarsa"
-    q0 = make_table(case["ns"], case["na"], case["tseed"], case["mode"])
     env = _make_env(case)
+    q0 = _run_table(sub, env, case, case["tseed"], case["mode"])
     with Tap(mod, "epsilon_greedy_policy", _snap_policy) as tap:
         final = mod.train_sarsa(env, jnp.asarray(q0), learning_rate=case["lr"], epsilon=case["epsilon"],
                                 gamma=case["gamma"], total_timesteps=case["total"], seed=case["seed"],
@@ -777,7 +977,7 @@ def run_run_sarsa(case):
     flags = []
     off_policy_next = False
     for i, t in enumerate(tr):
-        s, a, s2, term = int(t["observation"]), int(t["action"]), int(t["next_observation"]), bool(t["terminated"])
+        s, a, s2, term = _sidx(t["observation"]), int(t["action"]), _sidx(t["next_observation"]), bool(t["terminated"])
         c_act, c_next = tap.calls[2 * i], tap.calls[2 * i + 1]
         before = c_act["table"]
         after = tap.calls[2 * i + 2]["table"] if 2 * i + 2 < len(tap.calls) else np.asarray(final)
@@ -789,17 +989,19 @@ def run_run_sarsa(case):
               f"step {i}: next action selected at {c_next['obs']}, successor {s2}")
         a2 = c_next["action"]
         q64 = before.astype(np.float64)
-        v = float(q64[s2, a2])
+        v = float(q64[s2 + (a2,)])
         if a2 != int(np.argmax(q64[s2])) and abs(v - q64[s2].max()) > 1e-3:
             off_policy_next = True
-        ref, scale = td_ref(q64[s, a], t["reward"], case["gamma"], term, v, case["lr"])
+        ref, scale = td_ref(q64[s + (a,)], t["reward"], case["gamma"], term, v, case["lr"])
         check_single_update(sub, before, after, s, a, ref, scale,
-                            detail=f"[step {i}: s={s} a={a} r={t['reward']} s'={s2} a'={a2} terminated={term} "
-                                   f"truncated={t['truncated']} table={before.tolist()}]")
+                            detail=f"[step {i}: s={_show(s)} a={a} r={t['reward']} s'={_show(s2)} a'={a2} "
+                                   f"terminated={term} truncated={t['truncated']} table={before.tolist()}]",
+                            readings=lambda: [axis0_reading(before, s, a, t["reward"], s2, a2, case["gamma"], term,
+                                                            case["lr"])])
         flags.append((term, case["lr"] * case["gamma"] * abs(v) > 20 * tol_of(ref, scale)))
     labels, nt = _vis_labels(flags)
     labels.append("non-greedy-next-action" if off_policy_next else "greedy-next-actions")
-    return Outcome(labels=labels, nontrivial=nt)
+    return Outcome(labels=labels + _run_labels(case), nontrivial=nt)
 
 
 def run_run_mc(case):
@@ -831,7 +1033,7 @@ def run_run_mc(case):
     repeat = False
     for i, t in enumerate(tr):
         s, a = int(t["observation"]), int(t["action"])
-        check(tap.calls[i]["obs"] == s and tap.calls[i]["action"] == a, f"{sub}.acts_on_current_observation",
+        check(tap.calls[i]["obs"] == (s,) and tap.calls[i]["action"] == a, f"{sub}.acts_on_current_observation",
               f"step {i}: policy asked at {tap.calls[i]['obs']} -> {tap.calls[i]['action']}, env at {s} got {a}")
         episode.append([s, a, float(t["reward"])])
         if t["terminated"] or t["truncated"]:
@@ -876,8 +1078,8 @@ def run_run_mc(case):
 
 
 def _snap_dql(args, kwargs, res):
-    return {"upd": np.array(args[1]), "other": np.array(args[2]), "obs": int(args[3]), "action": int(args[4]),
-            "reward": float(args[5]), "next_obs": int(args[6]), "result": np.array(res)}
+    return {"upd": np.array(args[1]), "other": np.array(args[2]), "obs": _sidx(args[3]), "action": int(args[4]),
+            "reward": float(args[5]), "next_obs": _sidx(args[6]), "result": np.array(res)}
 
 
 def run_run_double_q(case):
@@ -885,10 +1087,10 @@ def run_run_double_q(case):
     import rl_blox.algorithm.double_q_learning as mod
 
     sub = "run_double_q"
-    qa = make_table(case["ns"], case["na"], case["tseed"], case["mode"])
-    # the two tables always differ (equal seeds would make the roles of the tables unobservable)
-    qb = make_table(case["ns"], case["na"], case["tseed2"] + (1 if case["tseed2"] == case["tseed"] else 0), "normal")
     env = _make_env(case)
+    qa = _run_table(sub, env, case, case["tseed"], case["mode"])
+    # the two tables always differ (equal seeds would make the roles of the tables unobservable)
+    qb = _run_table(sub, env, case, case["tseed2"] + (1 if case["tseed2"] == case["tseed"] else 0), "normal")
     with Tap(mod, "epsilon_greedy_policy", _snap_policy) as tap, Tap(mod, "_dql_update", _snap_dql) as upd:
         res = mod.train_double_q_learning(env, jnp.asarray(qa), jnp.asarray(qb), learning_rate=case["lr"],
                                           epsilon=case["epsilon"], gamma=case["gamma"],
@@ -904,7 +1106,7 @@ def run_run_double_q(case):
     which = set()
     ambiguous = False
     for i, t in enumerate(tr):
-        s, a, s2, term = int(t["observation"]), int(t["action"]), int(t["next_observation"]), bool(t["terminated"])
+        s, a, s2, term = _sidx(t["observation"]), int(t["action"]), _sidx(t["next_observation"]), bool(t["terminated"])
         check(tap.calls[i]["obs"] == s and tap.calls[i]["action"] == a, f"{sub}.acts_on_current_observation",
               f"step {i}")
         ssum = (cur[0].astype(np.float64) + cur[1].astype(np.float64))
@@ -921,7 +1123,8 @@ def run_run_double_q(case):
         which.add(k)
         vis, dist = double_q_oracle(sub, cur[k], cur[1 - k], u["result"], s, a, float(t["reward"]), s2,
                                     case["gamma"], case["lr"], term,
-                                    detail=f"[step {i}: s={s} a={a} r={t['reward']} s'={s2} terminated={term} updated table {k + 1}]")
+                                    detail=f"[step {i}: s={_show(s)} a={a} r={t['reward']} s'={_show(s2)} "
+                                           f"terminated={term} updated table {k + 1}]")
         cur[k] = u["result"]
         flags.append((term, vis))
     if not ambiguous:
@@ -931,7 +1134,7 @@ def run_run_double_q(case):
     labels.append("both-tables-updated" if which == {0, 1} else "one-table-updated")
     if ambiguous:
         labels.append("ambiguous-equal-tables")
-    return Outcome(labels=labels, nontrivial=bool(nt and not ambiguous))
+    return Outcome(labels=labels + _run_labels(case), nontrivial=bool(nt and not ambiguous))
 
 
 def _snap_planning(args, kwargs, res):
@@ -967,7 +1170,7 @@ def run_run_dynaq(case):
     for i, t in enumerate(tr):
         s, a, s2 = int(t["observation"]), int(t["action"]), int(t["next_observation"])
         r = float(t["reward"])
-        check(tap.calls[i]["obs"] == s and tap.calls[i]["action"] == a, f"{sub}.acts_on_current_observation", f"step {i}")
+        check(tap.calls[i]["obs"] == (s,) and tap.calls[i]["action"] == a, f"{sub}.acts_on_current_observation", f"step {i}")
         if any(h[0] == s and h[1] == a and h[3] != s2 for h in hist):
             stochastic = True
         hist.append([s, a, r, s2])
@@ -1002,11 +1205,11 @@ def _runs(algo):
 _RUN_KW = dict(shrink=False, suppress_too_slow=True, simplify=simplify_run, shards=2, shards_thorough=8)
 
 SUBCHECKS = [
-    SubCheck("q_learning", lambda: transition_cases(), run_q_learning, quick=300, thorough=6000, shards=2,
+    SubCheck("q_learning", lambda: transition_cases(nd=True), run_q_learning, quick=400, thorough=6000, shards=2,
              rule="bootstrap term lr*gamma*max_a Q(s',a) visible (> 20x tolerance)"),
-    SubCheck("sarsa", lambda: transition_cases(with_next_action=True), run_sarsa, quick=300, thorough=6000, shards=2,
+    SubCheck("sarsa", lambda: transition_cases(with_next_action=True, nd=True), run_sarsa, quick=400, thorough=6000, shards=2,
              rule="bootstrap term lr*gamma*Q(s',a') visible"),
-    SubCheck("double_q", lambda: transition_cases(two_tables=True), run_double_q, quick=400, thorough=8000, shards=2,
+    SubCheck("double_q", lambda: transition_cases(two_tables=True, nd=True), run_double_q, quick=500, thorough=8000, shards=2,
              rule="bootstrap term visible and (terminated, or selection at s' vs at s distinguishable)"),
     SubCheck("monte_carlo", mc_cases, run_mc, quick=300, thorough=6000, shards=2, cost=1.5,
              rule="episode of length >= 2 with a pair visited twice with different returns, gamma > 0"),
@@ -1016,13 +1219,13 @@ SUBCHECKS = [
              rule="some (s,a) observed with >= 2 different successors"),
     SubCheck("dynaq_planning", planning_cases, run_dynaq_planning, quick=200, thorough=4000, shards=3, cost=4.0,
              rule=">= 1 planning step, >= 2 distinct buffered pairs, bootstrap visible"),
-    SubCheck("run_q_learning", _runs("q_learning"), run_run_q_learning, quick=16, thorough=200, cost=40.0,
+    SubCheck("run_q_learning", _runs("q_learning"), run_run_q_learning, quick=20, thorough=200, cost=40.0,
              rule="run with a visible terminated step and a visible bootstrap step", **_RUN_KW),
-    SubCheck("run_sarsa", _runs("sarsa"), run_run_sarsa, quick=16, thorough=200, cost=40.0,
+    SubCheck("run_sarsa", _runs("sarsa"), run_run_sarsa, quick=20, thorough=200, cost=40.0,
              rule="run with a visible terminated step and a visible bootstrap step", **_RUN_KW),
     SubCheck("run_monte_carlo", _runs("monte_carlo"), run_run_mc, quick=10, thorough=200, cost=60.0,
              rule=">= 1 finished episode and an entry visited more than once", **_RUN_KW),
-    SubCheck("run_double_q", _runs("double_q"), run_run_double_q, quick=16, thorough=200, cost=50.0,
+    SubCheck("run_double_q", _runs("double_q"), run_run_double_q, quick=20, thorough=200, cost=50.0,
              rule="run with a visible terminated step and a visible bootstrap step", **_RUN_KW),
     SubCheck("run_dynaq", _runs("dynaq"), run_run_dynaq, quick=10, thorough=200, cost=120.0,
              rule="visible direct update and (no planning or a visible planning update)", **_RUN_KW),
